@@ -333,6 +333,12 @@ type verifWorld struct {
 	unshared cpuset.CPUSet
 	// idle CPUs freed by the deletion of a balloon and not shared with the balloons in whose scope they are
 	unsharedDeleted cpuset.CPUSet
+	// Conjunctions, over all states checked so far, of the sub-claims that are
+	// judged under their own labels. They are asserted once, at the end of the
+	// history (assertSoftC02): an assertion that fails on every input of a path
+	// ends the path, and must not keep the other assertions from being checked
+	// on the rest of the history.
+	softClassRefused, softScopeRefused, softScopeDeleted, softFitsCapped bool
 }
 
 // verifNewPolicy sets the policy up like Setup (see the file comment) with
@@ -350,7 +356,8 @@ func verifNewPolicy(cfg *cfgapi.Config, machine int) (*verifWorld, error) {
 	}
 	p.memAllocator = ma
 	p.cpuTree = verifCpuTreeFromSystem(sys)
-	w := &verifWorld{p: p, cache: c, sys: sys, ncpu: ncpu, cfg: cfg, abandoned: cpuset.New(), unshared: cpuset.New(), unsharedDeleted: cpuset.New()}
+	w := &verifWorld{p: p, cache: c, sys: sys, ncpu: ncpu, cfg: cfg, abandoned: cpuset.New(), unshared: cpuset.New(), unsharedDeleted: cpuset.New(),
+		softClassRefused: true, softScopeRefused: true, softScopeDeleted: true, softFitsCapped: true}
 	return w, p.setConfig(cfg.DeepCopy())
 }
 
